@@ -1,3 +1,85 @@
-"""Checker self-validation battery (thorough tier) - filled in later."""
+"""Checker self-validation battery (thorough tier, DESIGN.md section 6).
+
+(1) firing variants: every seeded change filed under /verif/seeded that this property's rules are expected to catch (seeded/EXPECTED.json)
+    is applied to the *current* source in memory and must raise a violation;
+(2) passing twins: behaviour-preserving rewrites of the current source (full re-format through ast.unparse, shifted line numbers) must stay silent;
+(3) history: on the pinned original tree (root commit of /repo, read with `git show`) the rules of every finding recorded as fixed for this
+    property must fire.
+A rule that misses its variant, fires on a twin, or is silent on the pinned tree makes the check exit 2: then the machinery, not nmfu, is broken.
+"""
+import ast, glob, importlib, json, os, subprocess, tempfile
+from . import core
+from .context import Ctx
+
+
+def _run(prop, text):
+    mod = importlib.import_module(f"nmfulint.rules.{prop.lower()}")
+    rep = core.Report(prop)
+    mod.run(Ctx(text), rep, "quick")
+    kf = core.load_known_findings()
+    return [v for v in rep.violations if not any(core.finding_matches(e, v) for e in kf.get("open", []) if e.get("property") == prop)]
+
+
+def _patched(text, patch_file):
+    with tempfile.TemporaryDirectory() as td:
+        src = os.path.join(td, "nmfu.py")
+        dst = os.path.join(td, "out.py")
+        open(src, "w").write(text)
+        r = subprocess.run(["patch", "-s", "-o", dst, src, patch_file], capture_output=True, text=True)
+        if r.returncode != 0 or not os.path.exists(dst):
+            return None
+        return open(dst).read()
+
+
 def run_battery(prop, rep):
-    return
+    here = core.VERIF_DIR
+    text = open(core.REPO_FILE).read()
+    rep.rule("SELFTEST", "firing variants (seeded changes), passing twins (re-format, line shift), pinned-tree history")
+    exp_file = os.path.join(here, "seeded", "EXPECTED.json")
+    expected = json.load(open(exp_file)) if os.path.exists(exp_file) else {}
+    fired = skipped = 0
+    for sid, props in sorted(expected.items()):
+        if prop not in props:
+            continue
+        pf = os.path.join(here, "seeded", sid, "patch.diff")
+        mt = _patched(text, pf) if os.path.exists(pf) else None
+        if mt is None:
+            skipped += 1
+            rep.notes.append(f"seeded change {sid} no longer applies to the current tree (skipped)")
+            continue
+        try:
+            bad = _run(prop, mt)
+        except core.AnalysisError as e:
+            raise core.AnalysisError(f"self-test: analysis error on seeded change {sid}: {e}")
+        if not bad:
+            raise core.AnalysisError(f"self-test: {prop} rules are silent on seeded change {sid}, which they are recorded to catch")
+        fired += 1
+        rep.ok("SELFTEST", "seeded/" + sid, f"fires: {sorted({v.rule for v in bad})}")
+    twins = {"reformat(ast.unparse)": ast.unparse(ast.parse(text)), "line-shift": "# shifted\n# lines\n\n" + text}
+    for name, t in twins.items():
+        try:
+            bad = _run(prop, t)
+        except core.AnalysisError as e:
+            raise core.AnalysisError(f"self-test: analysis error on passing twin {name}: {e}")
+        if bad:
+            raise core.AnalysisError(f"self-test: {prop} raises {sorted({v.rule for v in bad})} on the behaviour-preserving twin {name}")
+        rep.ok("SELFTEST", "twin/" + name, "silent")
+    kf = core.load_known_findings()
+    fixed_rules = [e for e in kf.get("fixed", []) if e.get("property") == prop]
+    if fixed_rules:
+        try:
+            root = subprocess.run(["git", "-C", "/repo", "rev-list", "--max-parents=0", "HEAD"], capture_output=True, text=True).stdout.split()[0]
+            old = subprocess.run(["git", "-C", "/repo", "show", f"{root}:nmfu.py"], capture_output=True, text=True).stdout
+        except Exception:
+            old = ""
+        if old:
+            bad = _run(prop, old)
+            rules = {v.rule for v in bad}
+            for e in fixed_rules:
+                want = [r.strip() for r in e["rule"].split("/")]
+                if not any(w in rules for w in want):
+                    raise core.AnalysisError(f"self-test: rule {e['rule']} of fixed finding {e['id']} is silent on the pinned tree (root commit)")
+                rep.ok("SELFTEST", "history/" + e["id"], f"rule {e['rule']} fires on the pinned tree")
+        else:
+            rep.notes.append("pinned tree not available through git: history self-test skipped")
+    rep.analysed["selftest"] = {"seeded_fired": fired, "seeded_skipped": skipped, "twins": len(twins), "history": len(fixed_rules)}
